@@ -325,7 +325,7 @@ func PretouchMany(vts []reflect.Type, opts ...option.CompileOption) error {
 
 	vtm := make(map[reflect.Type]uint8, len(vts))
 	for _, vt := range vts {
-		vtm[vt] = 0
+		vtm[vt] = 1
 	}
 
 	if !vars.UseVM {
